@@ -187,6 +187,19 @@ def build_gcd(mpc):
     return build_gcd_ops(mpc, mpc.SecInt(6))
 
 
+def build_iszero64(mpc):
+    """The probabilistic zero test ([NO07], used when l/2 > k >= 8 and p = 3 mod 4) with several parties: SecInt(64), k = 30."""
+    T = mpc.SecInt(64)
+    ops = {}
+    dom = [0, 1, -1, 2, 255, -256, 2 ** 62, -2 ** 63, 12345]
+    ops['is_zero64'] = exact.Op(1, lambda a: mpc.is_zero(a), lambda v: int(v[0] == 0), 'value', make=T, domain=dom, mp_domain=dom, maxpts=0)
+    ops['eq64'] = exact.Op(2, lambda a, b: a == b, lambda v: int(v[0] == v[1]), 'value', make=T, domain=dom, mp_domain=[0, 1, -1, 2 ** 62, 12345], maxpts=0)
+    ops['ne64'] = exact.Op(2, lambda a, b: a != b, lambda v: int(v[0] != v[1]), 'value', make=T, domain=dom, mp_domain=[0, -1, 255, 12345], maxpts=0)
+    for o in ops.values():
+        o.full = -1          # seeded masks only: the test is statistical (2^-k)
+    return ops
+
+
 def jobs(tier, seed):
     out = []
     names = sorted(build(exact.Dummy()))
@@ -199,6 +212,9 @@ def jobs(tier, seed):
     for n in gnames:
         out.append(dict(engine='sp_gcd', k=2, ops=[n], tier=tier, seed=seed))
     out.append(dict(engine='sp_iszero', tier=tier, seed=seed))
+    for (m_, t_) in ((3, 1), (4, 1)) if tier == 'quick' else ((3, 1), (4, 1), (5, 2), (2, 0)):
+        for np_ in (False, True):
+            out.append(dict(engine='mp_iszero', m=m_, t=t_, no_prss=np_, part=0, parts=1, k=30, tier=tier, seed=seed))
     out += exact.mp_jobs(tier, seed, exact.QUICK_CFGS)
     if tier == 'thorough':
         out += exact.mp_jobs(tier, seed, exact.CORE_CFGS, mmax=3, parts=lambda m: 2, extra=dict(engine='mp_gcd'))
@@ -215,6 +231,8 @@ def run_job(job):
         return exact.run_sp('C01', job, build_gcd, cfgname='sp/gcd/k2')
     if job['engine'] == 'sp_iszero':
         return run_sp_iszero(job)
+    if job['engine'] == 'mp_iszero':
+        return exact.run_mp('C01', job, build_iszero64, batch=12, patterns=('seeded',))
     if job['engine'] == 'mp_gcd':
         return exact.run_mp('C01', job, build_gcd, batch=6, patterns=('seeded', 'max'),
                             names=('gcd', 'gcdext', 'inverse') if job['tier'] == 'quick' else None)
